@@ -42,3 +42,14 @@ Proof.
   exfalso. apply (H r). apply verify_auth_rec_sound. exact E.
 Qed.
 Print Assumptions C01_any_deviation_rejected.
+
+(* non-vacuity: a concrete, really signed ES256 assertion (oracle answers inlined) is accepted by kernel evaluation
+   and meets AuthAccepted; with another challenge it is rejected *)
+From PW Require Import Proofs.Examples.
+Example C01_nonvacuous : AuthAccepted ex_oracles ex_policy ex_cred ex_result.
+Proof. exact auth_example_meets_the_spec. Qed.
+Example C01_nonvacuous_rejection : exists e, verify_auth ex_oracles
+  {| ap_challenge := Z.lxor (hd 0 (ap_challenge ex_policy)) 1 :: tl (ap_challenge ex_policy); ap_rp_id := ap_rp_id ex_policy;
+     ap_origin := ap_origin ex_policy; ap_pubkey := ap_pubkey ex_policy; ap_count := ap_count ex_policy; ap_require_uv := true |}
+  (InRec ex_cred) = Err e.
+Proof. eexists. vm_compute. reflexivity. Qed.
